@@ -9,7 +9,7 @@
 From Coq Require Import String ZArith List Bool Lia Permutation Sorted Field.
 From IBL.lib Require Import PyInt.
 From IBL.C09 Require Model Grammar.
-From IBL.C08 Require Import Model Adc Proofs Canon Scan ScanProofs File FileProofs.
+From IBL.C08 Require Import Model Adc Proofs Canon Scan ScanProofs File FileProofs Float32.
 Import ListNotations.
 Open Scope Z_scope.
 Module M9 := IBL.C09.Model.
@@ -306,6 +306,44 @@ Proof.
 Qed.
 Print Assumptions C08_default_geometry.
 
+(* ---- totality (round 3): the geometry exists exactly for tables of at most 384 entries whose
+   entries are on the grid; in the shank-map encoding every table of at most 384 entries has one, so
+   the hypotheses `geometry ... = Some ...` of the theorems above hold on the whole domain ---- *)
+Theorem C08_geometry_defined : forall g e sites split srt,
+  (exists t inds, geometry g e sites split srt = Some (t, inds)) <->
+  ((length sites <= NC)%nat /\ forall s, In s sites -> site_crxy g e s <> None).
+Proof. exact geometry_defined. Qed.
+Print Assumptions C08_geometry_defined.
+
+Theorem C08_geometry_total : forall g sites split srt, (length sites <= NC)%nat ->
+  (exists t inds, geometry g ShankMap sites split srt = Some (t, inds)) /\
+  (g <> NPU -> exists t inds, geometry g GeomMap (map (geom_entry g) sites) split srt = Some (t, inds)).
+Proof.
+  intros g sites split srt Hl. split; [now apply geometry_total_shankmap|].
+  intros Hg. rewrite encodings_geometry by exact Hg. now apply geometry_total_shankmap.
+Qed.
+Print Assumptions C08_geometry_total.
+
+(* ---- float32 (round 3): on every cell (column, row) of every generation's site grid, the binary32
+   evaluation (Flocq, round to nearest even) of the source's formulas — shank-map branch, and
+   geometry-map branch on the entry SpikeGLX writes for the cell — yields exactly the float32 of the
+   integer the model computes; and the float64 delays k / n_cycles of one ADC are pairwise distinct
+   (the numerator carried by the model determines the float and vice versa).  Exhaustive. ---- *)
+Theorem C08_float32_exact_on_grid : forall g c r, In (c, r) (grid_cells g) ->
+  shank_ok g c r = true /\ (g <> NPU -> geom_ok g c r = true) /\
+  distinct (map (delay g) (zrange (Z.to_nat (adc_channels g)))) = true.
+Proof.
+  intros g c r Hin.
+  pose proof sweep_all as Hs. pose proof delays_distinct as Hd.
+  rewrite forallb_forall in Hs, Hd.
+  assert (Hg : In g [NP1; NP21; NP24; NPU]) by (destruct g; cbn; auto).
+  specialize (Hs g Hg). specialize (Hd g Hg). unfold sweep in Hs. rewrite forallb_forall in Hs.
+  specialize (Hs (c, r) Hin). cbn [fst snd] in Hs. apply andb_true_iff in Hs as [H1 H2].
+  split; [exact H1|]. split; [|exact Hd].
+  intros Hn. destruct g; try exact H2. congruence.
+Qed.
+Print Assumptions C08_float32_exact_on_grid.
+
 (* ---- non-vacuity: concrete inputs meeting the hypotheses, with the model's values ---- *)
 Example C08_example_sorted_split :
   geometry NP24 ShankMap [(1, 0, 5, 1); (0, 1, 5, 1); (1, 1, 5, 0); (0, 0, 5, 1)] (Some 1) true
@@ -338,3 +376,48 @@ NP2.4_shank=1
 "%string) true
   = Geometry (mkgeom [1; 1] [1; 0] [5; 5] [0; 1] [59; 27] [95; 95] [1; 0] [0; 0] [1; 0]) [1; 0].
 Proof. vm_compute. reflexivity. Qed.
+
+(* hypotheses of C08_file_to_geometry are satisfiable: a three-line file over C09's grammar *)
+Definition ex_lines : list (M9.str * M9.str) :=
+  [(M9.lit "imDatPrb_type", M9.lit "24");
+   (M9.lit "~snsShankMap", print_map (M9.lit "(4,2,640)") [(1, 0, 5, 1); (0, 1, 5, 1); (1, 1, 5, 0)]);
+   (M9.lit "NP2.4_shank", M9.print_nat 1)].
+Example C08_example_file_hypotheses :
+  Forall G9.gram_line ex_lines /\ G9.serial_lines_ok ex_lines /\
+  M9.version (text_dict ex_lines) = Some M9.VNP24 /\
+  last_value kShankMap ex_lines = Some (print_map (M9.lit "(4,2,640)") [(1, 0, 5, 1); (0, 1, 5, 1); (1, 1, 5, 0)]) /\
+  colon_free (M9.lit "(4,2,640)") /\ Forall valid_site [(1, 0, 5, 1); (0, 1, 5, 1); (1, 1, 5, 0)] /\
+  last_value kSplit ex_lines = split_text (Some 1) /\
+  geometry_of_file (file_of ex_lines) true
+  = Geometry (mkgeom [1; 1] [1; 0] [5; 5] [0; 1] [59; 27] [95; 95] [1; 0] [0; 0] [1; 0]) [1; 0].
+Proof.
+  assert (Gnum : forall k v, forallb (fun c => negb (c =? 61)) k = true -> IBL.C09.Proofs.plain k = true ->
+                 G9.nonempty_digits v -> G9.gram_line (k, v)).
+  { intros k v H1 H2 H3. split; [exact H1|]. split; [exact H2|]. right. left. left. exact H3. }
+  split.
+  { constructor; [|constructor; [|constructor; [|constructor]]].
+    - apply Gnum; [vm_compute; reflexivity|vm_compute; reflexivity|].
+      split; [vm_compute; reflexivity|vm_compute; discriminate].
+    - split; [vm_compute; reflexivity|]. split; [vm_compute; reflexivity|].
+      left. split; vm_compute; reflexivity.
+    - apply Gnum; [vm_compute; reflexivity|vm_compute; reflexivity|].
+      split; [vm_compute; reflexivity|vm_compute; discriminate]. }
+  split.
+  { intros k v Hin Hk. exfalso. unfold ex_lines in Hin. cbn [In] in Hin.
+    destruct Hin as [H|[H|[H|[]]]]; inversion H; subst; vm_compute in Hk; intuition discriminate. }
+  split; [vm_compute; reflexivity|]. split; [vm_compute; reflexivity|].
+  split; [repeat constructor; vm_compute; discriminate|].
+  split.
+  { assert (V : forall n, 0 <= n < 10 -> valid_num n) by (unfold valid_num; intros; lia).
+    repeat constructor; apply V; lia. }
+  split; vm_compute; reflexivity.
+Qed.
+
+(* hypotheses of the sorting theorems on a table with ties in shank and row, and the split/sort theorem *)
+Example C08_example_split_commutes :
+  let sites := [(1, 0, 7, 1); (0, 1, 5, 1); (1, 1, 7, 0); (0, 0, 5, 1); (1, 0, 2, 1)] in
+  exists t t', geometry_unsorted NP24 ShankMap sites None = Some t /\
+    geometry_unsorted NP24 ShankMap sites (Some 1) = Some t' /\
+    lexsort t = [1; 3; 4; 2; 0] /\ lexsort t' = [2; 1; 0] /\ where_eq 1 (g_shank t) = [0; 2; 4] /\
+    map (znth (where_eq 1 (g_shank t))) (lexsort t') = [4; 2; 0].
+Proof. vm_compute. eexists. eexists. repeat split. Qed.
